@@ -1,11 +1,16 @@
 (* C08 -- Attractor candidates cover every attractor under every option and limit setting
 
-   PARTIAL.  Proved: the fixed points of the reduced transition graph that the candidate pipeline asks the ASP
-   solver for are exactly Brute.reduced_fixed_b (deadlock_program_models, reduce_pn_enabled), and the cover
-   predicate run on the implementation's candidate lists is exact (check_cover_ok).  NOT proved: that those
-   fixed points cover every attractor when the retained variables form a negative feedback vertex set
-   (a signed-graph argument that is not formalised), and the branch structure of compute_attractor_candidates
-   (greedy flips, regeneration, simulation), which is decided by check_cover on every returned list.
+   Model: Candidates.compute_candidates = compute_attractor_candidates branch by branch (all limit comparisons,
+   greedy flips, regeneration loop, both simulation variants), driven by a solver tape and a walk tape; every
+   run of the real pipeline is replayed on it (same sequence of solver calls, same result).
+   compute_candidates_covers_weak: for EVERY option combination and EVERY configuration value (0 included) a
+   COk result consists of states of the node space covering every attractor of the node, under
+   (a) the tape contracts (each solver answer is a duplicate-free prefix, of the length its limit allows, of
+   the reduced fixed points; walks visit reachable states), (b) reduction_hyp: for every assignment of the NFVS
+   the reduced fixed points hit every attractor (a signed-graph fact that is NOT proved; it is checked on every
+   recorded instance by nfvs_reduction_ok_b, proved equivalent), and (c) for the empty-NFVS shortcut, that every
+   fixed point of the node lies in an avoided space (true for expanded nodes of a faithful diagram; the formal
+   counterexample without it is compute_candidates_covers_counterexample).
 
    This file contains only restatements closed by `exact` (statements produced by Coq's own
    `Check` of the library lemma) plus non-vacuity Examples, each followed by Print Assumptions. *)
@@ -13,7 +18,38 @@ From Coq Require Import List Bool Arith NArith Lia Relations Permutation.
 Import ListNotations.
 From BB Require Import BN Brute SpaceFacts TrapFacts PercolateFacts AttractorFacts Diagram Invariants Checks Filter
   Strict PetriNet Control Meta FilterFacts PetriNetFacts TrappistFacts DiagramStruct DiagramSem1 DiagramCache
-  DiagramDepth DiagramComplete Termination ControlFacts MetaFacts.
+  DiagramDepth DiagramComplete Termination ControlFacts MetaFacts Candidates StrictFacts MinExpandFacts CandidatesFacts.
+
+Theorem C08_pipeline_covers : forall (fuel : nat) (N : net) (S : space) (avoid : list space) (nfvs : list nat) (Rinit : retained) (cfg : ccfg) (greedy simulation : bool) (tape : list (list state)) (stp : simtape) (res : list state) (log : list call), trap_space N S -> (forall a : space, In a avoid -> trap_space N a) -> NoDup nfvs -> (forall v : nat, In v nfvs -> v < nvars N) -> retained_total nfvs Rinit -> reduction_hyp N S avoid nfvs -> (is_full S = false -> nfvs = [] -> avoid <> [] -> fixed_points_avoided N S avoid) -> compute_candidates fuel N S avoid nfvs Rinit cfg greedy simulation tape stp = (COk res, log) -> tape_ok N S avoid log tape -> walks_ok fuel N S avoid nfvs Rinit cfg greedy tape stp -> (forall c : state, In c res -> in_space c S = true) /\ covers N S avoid res.
+Proof. exact compute_candidates_covers_weak. Qed.
+
+Theorem C08_pipeline_covers_nonempty_nfvs : forall (fuel : nat) (N : net) (S : space) (avoid : list space) (nfvs : list nat) (Rinit : retained) (cfg : ccfg) (greedy simulation : bool) (tape : list (list state)) (stp : simtape) (res : list state) (log : list call), trap_space N S -> (forall a : space, In a avoid -> trap_space N a) -> NoDup nfvs -> (forall v : nat, In v nfvs -> v < nvars N) -> retained_total nfvs Rinit -> reduction_hyp N S avoid nfvs -> is_full S = true \/ nfvs <> [] \/ avoid = [] -> compute_candidates fuel N S avoid nfvs Rinit cfg greedy simulation tape stp = (COk res, log) -> tape_ok N S avoid log tape -> walks_ok fuel N S avoid nfvs Rinit cfg greedy tape stp -> (forall c : state, In c res -> in_space c S = true) /\ covers N S avoid res.
+Proof. exact compute_candidates_covers_nonempty. Qed.
+
+(* every COk result is an early exit or the complete fixed-point list of a total retained assignment (then possibly simulated) *)
+Theorem C08_pipeline_complete : forall (fuel : nat) (N : net) (S0 : space) (avoid : list space) (nfvs : list nat) (Rinit : retained) (cfg : ccfg) (greedy simulation : bool) (tape : list (list state)) (stp : simtape) (res : list state) (log : list call), NoDup nfvs -> retained_total nfvs Rinit -> compute_candidates fuel N S0 avoid nfvs Rinit cfg greedy simulation tape stp = (COk res, log) -> tape_ok N S0 avoid log tape -> is_full S0 = true /\ res = [full_state S0] \/ is_full S0 = false /\ nfvs = [] /\ avoid <> [] /\ res = [] \/ (exists (R : retained) (cands : list state), retained_total nfvs R /\ complete_for N S0 avoid R cands /\ compute_candidates fuel N S0 avoid nfvs Rinit cfg greedy false tape stp = (COk cands, log) /\ (c_limit cfg = 0 -> greedy = true /\ length cands < c_threshold cfg) /\ (res = cands \/ simulation = true /\ res = sim_rounds fuel avoid (nfree S0) cfg 1024 cands stp)).
+Proof. exact compute_candidates_complete. Qed.
+
+Theorem C08_limit_zero_never_truncates : forall (fuel : nat) (N : net) (S0 : space) (avoid : list space) (nfvs : list nat) (Rinit : retained) (cfg : ccfg) (greedy simulation : bool) (tape : list (list state)) (stp : simtape) (res : list state) (log : list call), NoDup nfvs -> retained_total nfvs Rinit -> c_limit cfg = 0 -> compute_candidates fuel N S0 avoid nfvs Rinit cfg greedy simulation tape stp = (COk res, log) -> tape_ok N S0 avoid log tape -> is_full S0 = true /\ res = [full_state S0] \/ is_full S0 = false /\ nfvs = [] /\ avoid <> [] /\ res = [] \/ greedy = true /\ (exists (R : retained) (cands : list state), retained_total nfvs R /\ complete_for N S0 avoid R cands /\ length cands < c_threshold cfg /\ (res = cands \/ simulation = true /\ res = sim_rounds fuel avoid (nfree S0) cfg 1024 cands stp)).
+Proof. exact compute_candidates_limit0. Qed.
+
+Theorem C08_greedy_keeps_complete : forall (fuel : nat) (N : net) (S : space) (avoid : list space) (nfvs : list nat) (T : list (list state)) (st : pst) (pm : bool) (R : retained) (cands : list state) (st' : pst) (R' : retained) (cands' : list state), retained_total nfvs R -> complete_for N S avoid R cands -> greedy_loop fuel st pm R cands = (st', Some (R', cands')) -> pinv T st -> tape_ok N S avoid (p_log st') T -> retained_total nfvs R' /\ complete_for N S avoid R' cands'.
+Proof. exact greedy_loop_complete. Qed.
+
+Theorem C08_simulation_avoid_covers : forall (N : net) (S : space) (avoid : list space), trap_space N S -> (forall a : space, In a avoid -> trap_space N a) -> forall (cands : list state) (walks : list (list state)) (res : list state) (w' : list (list state)), (forall c : state, In c cands -> in_space c S = true) -> covers N S avoid cands -> walks_for N cands walks -> sim_avoid avoid cands [] walks = (res, w') -> (forall c : state, In c res -> in_space c S = true) /\ covers N S avoid res.
+Proof. exact sim_avoid_covers. Qed.
+
+Theorem C08_simulation_minimal_covers : forall (N : net) (S : space) (avoid : list space), trap_space N S -> forall (iters : nat) (cands moves res m' : list state), (forall c : state, In c cands -> in_space c S = true) -> covers N S avoid cands -> sim_min_ok N iters cands moves -> sim_min iters cands moves = (res, m') -> (forall c : state, In c res -> in_space c S = true) /\ covers N S avoid res.
+Proof. exact sim_min_covers. Qed.
+
+Theorem C08_simulation_rounds_cover : forall (N : net) (S : space) (avoid : list space), trap_space N S -> (forall a : space, In a avoid -> trap_space N a) -> forall (rounds nfree : nat) (cfg : ccfg) (iters : nat) (cands : list state) (tp : simtape), (forall c : state, In c cands -> in_space c S = true) -> covers N S avoid cands -> sim_rounds_ok N rounds avoid nfree cfg iters cands tp -> (forall c : state, In c (sim_rounds rounds avoid nfree cfg iters cands tp) -> in_space c S = true) /\ covers N S avoid (sim_rounds rounds avoid nfree cfg iters cands tp).
+Proof. exact sim_rounds_covers. Qed.
+
+Theorem C08_reduction_check_exact : forall (N : net) (S : list (option bool)) (avoid : list space) (nfvs : list nat), length S = nvars N -> NoDup nfvs -> (forall v : nat, In v nfvs -> v < nvars N) -> nfvs_reduction_ok_b N S avoid nfvs = true <-> reduction_hyp N S avoid nfvs.
+Proof. exact nfvs_reduction_ok_b_spec. Qed.
+
+Theorem C08_empty_nfvs_needs_side_condition : exists (fuel : nat) (N : net) (S : space) (avoid : list space) (nfvs : list nat) (Rinit : retained) (cfg : ccfg) (greedy simulation : bool) (tape : list (list state)) (stp : simtape) (res : list state) (log : list call), trap_space N S /\ (forall a : space, In a avoid -> trap_space N a) /\ NoDup nfvs /\ (forall v : nat, In v nfvs -> v < nvars N) /\ retained_total nfvs Rinit /\ reduction_hyp N S avoid nfvs /\ compute_candidates fuel N S avoid nfvs Rinit cfg greedy simulation tape stp = (COk res, log) /\ tape_ok N S avoid log tape /\ walks_ok fuel N S avoid nfvs Rinit cfg greedy tape stp /\ ~ covers N S avoid res.
+Proof. exact compute_candidates_covers_counterexample. Qed.
 
 Theorem C08_check_cover_ok : forall (N : net) (S : space) (motifs : list space) (cands : list state), check_cover S (node_attractors_b N S motifs) cands = VOk <-> (forall c : state, In c cands -> in_space c S = true) /\ covers N S motifs cands.
 Proof. exact check_cover_ok. Qed.
@@ -34,6 +70,16 @@ Proof. exact node_attractors_b_complete. Qed.
 Theorem C08_empty_list_means_no_attractor : forall (N : net) (P : state -> Prop) (s : state), closed N P -> P s -> wf_state N s -> exists t : state, P t /\ in_attractor N t.
 Proof. exact closed_contains_attractor. Qed.
 
+Print Assumptions C08_pipeline_covers.
+Print Assumptions C08_pipeline_covers_nonempty_nfvs.
+Print Assumptions C08_pipeline_complete.
+Print Assumptions C08_limit_zero_never_truncates.
+Print Assumptions C08_greedy_keeps_complete.
+Print Assumptions C08_simulation_avoid_covers.
+Print Assumptions C08_simulation_minimal_covers.
+Print Assumptions C08_simulation_rounds_cover.
+Print Assumptions C08_reduction_check_exact.
+Print Assumptions C08_empty_nfvs_needs_side_condition.
 Print Assumptions C08_check_cover_ok.
 Print Assumptions C08_reduced_fixed_points_program.
 Print Assumptions C08_reduced_net_deadlocks.
